@@ -370,6 +370,33 @@ def run(prog: Program) -> Results:
                         if isinstance(n, ast.Subscript) and isinstance(n.ctx, ast.Store) and isinstance(n.value, ast.Name) and n.value.id == name:
                             res.add("R-C17-4", (k, "module cache", name), f.loc(n),
                                     f"{k} stores into module-level container {name}: a cache on the import chain")
+    # ------------------------------------------------------------- R-C17-5 only a path *literal* is followed
+    r5 = res.rule("R-C17-5", "the import argument is classified as written: between Import.__getitem__ and the NixPath test nothing "
+                  "resolves names (no scope-chain lookup, no Identifier.value) — an identifier or any other non-literal argument "
+                  "reaches the test unchanged and raises TypeError", floor=2)
+    RESOLUTION = {"_resolve_identifier", "set_resolution_context", "attach_resolution_context", "scopes_for_owner", "Identifier.value",
+                  "get_resolution_context", "_get_context", "function_call_scope"}
+    for root in ("Import._resolve_argument", "Import._follow_import"):
+        if not prog.has_func(root):
+            res.unclass(f"{root} vanished")
+            continue
+        r5.instances += 1
+        reach = cg.reachable([root], stop={"parse_file", "parse"})
+        hit = sorted(reach & RESOLUTION)
+        # property reads of `.value` on a local in the functions on the way
+        for k in sorted(reach):
+            g = prog.funcs[k]
+            if g.cls == "Import" or g.module.endswith("import_expression.py") or k in reach - {root}:
+                for n in walk_no_nested(g.node):
+                    if isinstance(n, ast.Attribute) and n.attr == "value" and isinstance(n.ctx, ast.Load) and isinstance(n.value, ast.Name) \
+                            and any(isinstance(t, ast.Call) and callee(t) == "isinstance" and norm(t.args[0]) == n.value.id and "Identifier" in norm(t.args[1])
+                                    for t in ast.walk(g.node)):
+                        hit.append(f"{k}: {norm(n)} on an Identifier")
+        r5.ob(not hit, {"root": root, "functions_on_the_way": sorted(reach)[:8]})
+        if hit:
+            res.add("R-C17-5", (root, "import argument is resolved before classification", hit[0].split(":")[0]), prog.func(root).loc(),
+                    f"{root} reaches name resolution ({', '.join(hit)[:120]}) before the `NixPath` test: `let p = ./b.nix; in {{ x = import p; }}` "
+                    f"is silently followed (and an unbound name raises a resolution error) instead of TypeError for a non-path argument")
     res.assumptions = ["the entry path is stored as given: if it is relative and the process later changes directory, "
                        "resolution follows the new directory (recorded in DESIGN.md, not decided)"]
     return res
